@@ -275,8 +275,16 @@ def random_history(ctx, rnd, tid, n, length, classes, p_save=0.0, variants=("can
             p = q
             events.append({"op": "saveload", "variant": variant, "sub": sub, "outcome": out, "post": get_tables(p)})
             continue
+        if p_save and r < p_save + 0.08:     # writing the project (or cloning it) and carrying on with the SAME object
+            try:
+                p.read() if rnd.random() < 0.7 else p.clone()
+                out = "ok"
+            except Exception as e:
+                out = "save-raised:" + type(e).__name__
+            events.append({"op": "save", "outcome": out, "post": get_tables(p)})
+            continue
         foreign = foreign_attached
-        if r < p_save + 0.08:
+        if r < p_save + 0.16:
             A, B, C = rop(2), rop(2, False), rop(2)
             # chaining needs plain modules in the middle operand
             for o in B:
